@@ -134,6 +134,46 @@ def sparse_bigblock(ctx, b):
                         {"kind": "trace", "trace": ex, "line": line})
 
 
+def smallest_tables(ctx, b):
+    """the smallest well-formed files in both format versions, behind 0 / 13 / 1000 foreign bytes: the empty table (no data block, an index
+    block that is only its restart array: the file is exactly as long as the reader's minimum) and tables of one entry of 0, 1, 2 payload bytes"""
+    rng = ctx.rng
+    wd = ctx.sub("small")
+    recs, lines = [], ["scratch " + wd]
+    n = 0
+    items = []
+    for version in (1, 2):
+        for plen in (0, 13, 1000):
+            for ents in ([], [(b"", b"")], [(b"a", b"")], [(b"", b"v")], [(b"a", b"v")], [(b"", b""), (b"a", b"")]):
+                blocks = [{"entries": ents, "restarts": {0}, "sep": ents[-1][0]}] if ents else []
+                data = R.encode(blocks, version=version, compression="none", prefix=P.xs_bytes(78, plen), index_restart_every=rng.choice([1, 16]))
+                path = os.path.join(wd, "s%d.mtbl" % n)
+                open(path, "wb").write(data)
+                items.append((path, ents))
+                lines.append("note mk%d" % n)
+                lines += ["r_init 0 %s %d 0" % (path, n % 2), "it_iter 1 r:0", "it_drain 1", "it_seek 1 %s" % shapes.hexs(b""), "it_drain 1", "it_destroy 1"]
+                for q in (b"", b"a", b"b"):
+                    for bd in (("get", q, b""), ("prefix", q, b""), ("range", b"", q)):
+                        lines += [gen.open_line(1, "r:0", bd), "it_drain 1", "it_destroy 1"]
+                lines.append("r_destroy 0")
+                n += 1
+    evs, rc, err = core.run_drv(b, "\n".join(lines) + "\n", wd, "small")
+    ctx.add("smallest_files", n)
+    if rc != 0:
+        core.report(ctx, "real reader ended abnormally (rc=%s) on the smallest well-formed files: %s" % (rc, err[-1500:]), {"kind": "script", "script": lines, "stderr": err[-3000:]})
+        return
+    for e in core.convert_events(evs):
+        if e["e"] == "Note" and e["t"].startswith("mk"):
+            k = int(e["t"][2:])
+            recs.append({"e": "Reset", "x": k})
+            recs.append(TC.mktable_rec(items[k][0], items[k][1]))
+        elif e["e"] != "Reset":
+            recs.append(e)
+    for ex, line in core.validate_batch(ctx, recs, "small"):
+        core.report(ctx, "real reader disagrees with the encoded entries of a smallest file at trace line %d: %s" % (line, json.dumps(ex[line - 1])[:300]),
+                    {"kind": "trace", "trace": ex, "line": line})
+
+
 def run(ctx):
     b = build.build("asan")
     rng = ctx.rng
@@ -208,6 +248,7 @@ def run(ctx):
                 os.unlink(st["_path"])
             except OSError:
                 pass
+    smallest_tables(ctx, b)
     sparse_bigblock(ctx, b)
     if ctx.quick():
         ctx.notes.append("block_builder on a block above 4 GiB is exercised in the thorough tier only (needs ~11 GiB of memory); the reader side is exercised on a sparse file")
